@@ -19,7 +19,7 @@ RULE = ("wraps: Hypothesis signatures of 1-5 positional-or-keyword parameters wi
         "None, '=A' definitions and references '=A', '=A*B', '=A**2', '=A/B'; call shapes: positional, keyword (in any order), omitted default; arguments: "
         "quantity in another compatible unit, incompatible unit, bare number, string; strict on/off; ret: None, unit, reference, tuple/list. The recorder "
         "function must see exactly the expected magnitudes (exact Fractions), the result must be re-wrapped in the declared or derived units, and errors "
-        "must have the documented class. check: dimension specs incl. None, same call shapes, raises DimensionalityError exactly when a dimension differs. "
+        "must have the documented class. check: dimension specs incl. None, same call shapes, raises DimensionalityError exactly when a dimension differs; every derived dimension name and SI special-name unit against the SI base exponents of oracle/dimtable.py (exact dimension accepted, each base exponent +-1 refused; enumerated). wraps also applies one decorator object to a sibling function first. "
         "decoration: count mismatch / bad spec types / undefined references are rejected at decoration time. Non-trivial = a call with a keyword or "
         "default-supplied argument and a reference spec, or a None between two unit specs; distinct = distinct (signature, specs, call)")
 ASSUMPTIONS = ["keyword-only and variadic parameters are outside the documented contract of wraps (it packs by position) and are not generated",
